@@ -517,6 +517,26 @@ func checkReclaimed(x *Exec, m *MWRun, before, after map[string][]byte, versBefo
 			}
 		}
 	}
+	// ... and nothing else: a version that still had a successor created after the cutoff was
+	// not superseded before it (equality with the cutoff is left to the boundary the code documents)
+	for k := range before {
+		if !strings.HasPrefix(k, m.Lay.Merged) {
+			continue
+		}
+		if _, still := after[k]; still {
+			continue
+		}
+		v := strings.TrimPrefix(k, m.Lay.Merged)
+		if _, ok := m.VerObj[v]; !ok {
+			continue
+		}
+		x.Check()
+		if !condemned(v, cut, false) {
+			x.Fail("C10-version-over-reclaimed", "%s: version %s has a successor created after the cutoff (or none at all) but its object under merged/ was deleted", desc, v)
+			return false
+		}
+		x.Probe("reclaimed-version-was-superseded-before-cutoff")
+	}
 	live := map[string]bool{}
 	cur, mer := m.Lay.Versions(after)
 	for _, v := range append(append([]string{}, cur...), mer...) {
